@@ -13,7 +13,7 @@ import (
 )
 
 func init() {
-	register("C06", "Decides the structure of the canary evaluation loop (the function that stores Result.IsFailed=true, found from that store) by a path table over one loop iteration: (R1) IsFailed=true is stored exactly on the iteration paths where *AutoFail.Enabled holds and one trigger comparison holds strictly — HighestRestartCount(pod) > *AutoFail.MaxRestarts, PodRestarting.LastUpdateTime−LastTransitionTime > AutoFail.MaxRestartsDuration, now−Canary.LastTransitionTime > AutoFail.CanaryTimeout — with the operand roles checked, and every iteration path that does not fail refutes all three triggers (so nothing, in particular not the manual unpause, takes precedence over failing; the only skip is 'already failed'); (R2) IsPaused=true is stored exactly on non-failing paths with *AutoPause.Enabled, not unpaused, and a pause trigger: CannotStart(pod) outside the maxSlowStartDuration exemption, PendingCreate(pod) past maxSlowStartDuration, or HighestRestartCount(pod) > *AutoPause.MaxRestarts; (R3) IsFailed is sticky: it is only ever stored from the persisted-condition reader applied to params.Replicaset (before the evaluation) or as constant true, and the Canary-Failed condition is written from it after the loop on every path through the loop; (R4) the unpause case runs only under IsUnpaused (read from the canary-unpaused annotation of the parent) and stores nothing but IsPaused/PausedReason; (R7) Result.PodsToCreate is stored in the canary strategy only under fresh loads IsPaused=false ∧ IsFailed=false; (R8) CannotStart/PendingCreate are true only for a container with State.Waiting!=nil and a reason in the cannot-start set / ContainerCreating, and the cannot-start set ⊆ the reasons the status-reason conversion keeps ⊆ the declared reason constants; (R9) condition wire: Canary-Failed, Canary-Paused, PodRestarting and Canary are written and read under the same condition type, PodRestarting is written with last-update support and the condition helper moves LastTransitionTime only on a status change.", runC06)
+	register("C06", "Decides the structure of the canary evaluation loop (the function that stores Result.IsFailed=true, found from that store) by a path table over one loop iteration: (R1) IsFailed=true is stored exactly on the iteration paths where *AutoFail.Enabled holds and one trigger comparison holds strictly — HighestRestartCount(pod) > *AutoFail.MaxRestarts, PodRestarting.LastUpdateTime−LastTransitionTime > AutoFail.MaxRestartsDuration, now−Canary.LastTransitionTime > AutoFail.CanaryTimeout — with the operand roles checked, and every iteration path that does not fail refutes all three triggers (so nothing, in particular not the manual unpause, takes precedence over failing; the only skip is 'already failed'); (R2) IsPaused=true is stored exactly on non-failing paths with *AutoPause.Enabled, not unpaused, and a pause trigger: CannotStart(pod) outside the maxSlowStartDuration exemption, PendingCreate(pod) past maxSlowStartDuration, or HighestRestartCount(pod) > *AutoPause.MaxRestarts; (R3) IsFailed is sticky: it is only ever stored from the persisted-condition reader applied to params.Replicaset (before the evaluation) or as constant true, and the Canary-Failed condition is written from it after the loop on every path through the loop; (R4) the unpause case runs only under IsUnpaused (read from the canary-unpaused annotation of the parent) and stores nothing but IsPaused/PausedReason; (R7) Result.PodsToCreate is stored in the canary strategy only under fresh loads IsPaused=false ∧ IsFailed=false; (R8) CannotStart/PendingCreate are true only for a container with State.Waiting!=nil and a reason in the cannot-start set / ContainerCreating, and the cannot-start set ⊆ the reasons the status-reason conversion keeps ⊆ the declared reason constants; (R9) condition wire: Canary-Failed, Canary-Paused, PodRestarting and Canary are written and read under the same condition type, PodRestarting is written with last-update support and the condition helper moves LastTransitionTime only on a status change. R8 also requires the cannot-start set to be exactly the declared ExtendedDaemonSetStatusReason values that name an image, registry, container-creation or hook error (the documented start errors): the set and the API's enumeration of reasons agree in both directions.", runC06)
 }
 
 type tri int8
